@@ -320,12 +320,16 @@ func (m *Machine) finishPath() {
 		}
 	}
 	if len(pr.Covers) > 0 && m.ex.needCoverModel(pr.Covers) && !m.concrete {
-		if m.solver.Check() == Sat {
+		switch m.checkRefined() { // model validated against the native evaluators of the UFs (refine_agentC.go)
+		case Sat:
 			model, _, ok := m.modelOfInputs()
 			if ok {
 				pr.CoverModel = model
 				pr.Obs = m.evalObservations()
 			}
+		case Unsat:
+			// the path only existed because an uninterpreted function was unconstrained
+			pr.Status, pr.Covers = "infeasible", nil
 		}
 	}
 }
